@@ -40,7 +40,11 @@ pub fn run(a: &Args, acc: &mut Acc) {
     let mut rng = prim::Rng::new(seed ^ 0xC05);
     let mut viols: Vec<(Cfg, Vec<Op>, String)> = vec![];
     let mut job = 0u64;
-    for n in 1..=nmax {
+    for (n, scale) in (1..=nmax).flat_map(|n| {
+        // small batches also with 18-decimals-sized amounts (products far beyond 128 bits)
+        let scales: Vec<u128> = if n <= 4 { vec![1, 10u128.pow(15), 10u128.pow(21)] } else { vec![1] };
+        scales.into_iter().map(move |s| (n, s))
+    }) {
         let mut cfg = Cfg::default_cfg();
         cfg.n_users = n + 2;
         cfg.salt = seed % 1000;
@@ -55,15 +59,15 @@ pub fn run(a: &Args, acc: &mut Acc) {
         let mut owns: Vec<u128> = vec![];
         for i in 0..n {
             let u = sc.users[i].clone();
-            let amt = 1_000 + 977 * (i as u128 + 1) + rng.below(1000) as u128;
+            let amt = (1_000 + 977 * (i as u128 + 1) + rng.below(1000) as u128) * scale + (scale > 1) as u128 * rng.below(1_000_000) as u128;
             base.step(Op::BankMint { addr: u.clone(), denom: sc.s.clone(), amount: amt });
             base.step(sc.stake(&u, amt, None, None, None));
         }
         base.relay_all("ack");
         // a reward makes the rate uneven
         let coll = sc.collector.clone();
-        base.step(Op::NativeMint { addr: coll.clone(), amount: 777 });
-        base.step(sc.reward(&coll, &sc.cfg.channel, 777));
+        base.step(Op::NativeMint { addr: coll.clone(), amount: 777 * scale });
+        base.step(sc.reward(&coll, &sc.cfg.channel, 777 * scale));
         base.relay_all("ack");
         for i in 0..n {
             let u = sc.users[i].clone();
